@@ -26,6 +26,9 @@ structure JobV where
   terminal  : Bool              -- status.phase.IsTerminal()
   admErr    : Bool              -- admission-error annotation present
   rv        : Nat
+  /-- what the annotation's message says (meaningful when `admErr`): the JobConfig name and the
+  active count `canStartJob` formatted into it -/
+  admMsg    : String × Int := ("", 0)
   deriving Repr, Inhabited, DecidableEq
 
 structure JCV where
@@ -179,13 +182,34 @@ def startJobWrite (s : Sys) (cached : JobV) : Sys × Bool :=
   apiWriteJob s "start" cached (fun cur =>
     { cur with startTime := some (s.clock / 1000000000), terminal := cached.terminal })
 
-/-- `JobControl.RejectJob`: Update with the admission-error annotation (spec/metadata from the
-cached object; status kept) -/
-def rejectJobWrite (s : Sys) (cached : JobV) : Sys × Bool :=
-  apiWriteJob s "reject" cached (fun cur =>
-    { cur with admErr := true, label := cached.label, ownerName := cached.ownerName,
-               ownerUid := cached.ownerUid, hasPolicy := cached.hasPolicy, policy := cached.policy,
-               startAfter := cached.startAfter })
+/-- the object `JobControl.RejectJob` submits, as stored by the API: admission-error annotation
+with message `msg`, spec/metadata from the cached object, status kept -/
+def rejectF (msg : String × Int) (cached : JobV) : JobV → JobV := fun cur =>
+  { cur with admErr := true, admMsg := msg, label := cached.label, ownerName := cached.ownerName,
+             ownerUid := cached.ownerUid, hasPolicy := cached.hasPolicy, policy := cached.policy,
+             startAfter := cached.startAfter }
+
+/-- the reject write would leave the authoritative Job exactly as it is (it was already rejected
+with the same message and nothing else changed): the API treats it as a no-op -/
+def rejectIsNoop (s : Sys) (cached : JobV) (msg : String × Int) : Bool :=
+  match findJob s.jobs cached.name with
+  | none => false
+  | some cur =>
+    -- `rejectF msg cached cur = cur`, field by field (only the fields the write sets)
+    decide (cur.rv = cached.rv) && cur.admErr && decide (cur.admMsg = msg) &&
+    decide (cur.label = cached.label) && decide (cur.ownerName = cached.ownerName) &&
+    decide (cur.ownerUid = cached.ownerUid) && decide (cur.hasPolicy = cached.hasPolicy) &&
+    decide (cur.policy = cached.policy) && decide (cur.startAfter = cached.startAfter)
+
+/-- `JobControl.RejectJob`: Update with the admission-error annotation (message built from the
+JobConfig name and the active count).  `SimAPI.Update`: an update that changes nothing returns ok
+without a new resourceVersion and without a watch event (the fault, if any, is still consumed
+and the call is logged). -/
+def rejectJobWrite (s : Sys) (cached : JobV) (msg : String × Int) : Sys × Bool :=
+  let (fault, s') := popFault s
+  if fault ≠ "err" ∧ fault ≠ "timeout" ∧ fault ≠ "conflict" ∧ rejectIsNoop s cached msg = true then
+    ({ s' with calls := s'.calls ++ [⟨"reject", cached.name, "ok"⟩] }, fault ≠ "applied-err")
+  else apiWriteJob s "reject" cached (rejectF msg cached)
 
 /-! ### PerConfigReconciler -/
 
@@ -215,7 +239,7 @@ def canStartJob (s : Sys) (jc : JCV) (j : JobV) (activeCount : Int) : Sys × Ver
       let t := (j.startAfter.getD 0) * 1000000000
       ({ s with cfgQ := s.cfgQ.addAfter ("ns/" ++ jc.name) t s.clock }, .skip)
     else if j.policy = 1 && decide (activeCount + 1 > jc.maxConc) then
-      let (s1, ok) := rejectJobWrite s j
+      let (s1, ok) := rejectJobWrite s j (jc.name, activeCount)
       (s1, if ok then .skip else .error)
     else if j.policy = 2 && decide (activeCount + 1 > jc.maxConc) then (s, .skip)
     else (s, .start)
